@@ -2109,3 +2109,162 @@ func ruleR256(c *Ctx) {
 		c.Missing("relay dispatch", "no type switch of the sub-process that has a CeaseFlowTrace case was found")
 	}
 }
+
+func init() {
+	register(&Rule{ID: "R257", Title: "every token that reaches an end event completes there: whatever an end event answers a request with is completeAction", Min: 2, Run: ruleR257})
+}
+
+func ruleR257(c *Ctx) {
+	p := c.P
+	what := "the token turns completeAction into a CompletionTrace for the end event and ends. An end event that answers the second token with noAction ('already reported') lets it end without the CompletionTrace: two tokens arrived, one completion is observed"
+	n := 0
+	for _, f := range p.Funcs {
+		if f.Body == nil || f.Pkg.PkgPath != pathBpmn {
+			continue
+		}
+		r := f.Root()
+		if r.Obj == nil || recvNamed(r.Obj) == nil || recvNamed(r.Obj).Obj().Name() != "endEvent" {
+			continue
+		}
+		in := info(f)
+		inspectNoLit(f.Body, func(m ast.Node) bool {
+			ss, ok := m.(*ast.SendStmt)
+			if !ok {
+				return true
+			}
+			et, isCh := chanElem(in.TypeOf(ss.Chan))
+			if !isCh || !isNamed(et, pathBpmn, "IAction") {
+				return true
+			}
+			n++
+			okAll := true
+			var got []string
+			for _, src := range resolveLocalExpr(in, f, ss.Value) {
+				t := in.TypeOf(src)
+				got = append(got, typeString(t))
+				if !isNamed(t, pathBpmn, "completeAction") {
+					okAll = false
+				}
+			}
+			c.Check(okAll, f, ss, "answer of the end event in "+f.Root().QName(), what, "answers with "+strings.Join(got, ", "))
+			return true
+		})
+	}
+	if n == 0 {
+		c.Missing("end event answers", "no send of an action by the end event was found")
+	}
+}
+
+func init() {
+	register(&Rule{ID: "R258", Title: "an expression engine is made for the evaluation that asks for it: what GetEngine returns is the result of calling a registered constructor in that very call (no pool, no free list)", Min: 1, Run: ruleR258})
+}
+
+func ruleR258(c *Ctx) {
+	p := c.P
+	what := "an engine keeps what it was given: the expr engine merges the instance's variables into its own environment and never clears it. Built per evaluation that is harmless; handed out again (a pool of idle engines 'to save allocations') the next instance evaluates its conditions over the previous instance's variables and takes the other instance's branch"
+	n := 0
+	for _, f := range p.Funcs {
+		if f.Body == nil || f.Obj == nil || f.Pkg.PkgPath != pathExpr || f.Lit != nil {
+			continue
+		}
+		sig := f.Obj.Type().(*types.Signature)
+		if sig.Results().Len() != 1 || !isNamed(sig.Results().At(0).Type(), pathExpr, "IEngine") {
+			continue
+		}
+		n++
+		in := info(f)
+		var srcs []ast.Expr
+		if rv := sig.Results().At(0); rv.Name() != "" {
+			defs, _ := localDefs(in, f.Body, rv)
+			srcs = append(srcs, defs...)
+			// select / receive forms: `case engine = <-ch`
+			inspectNoLit(f.Body, func(m ast.Node) bool {
+				if cc, ok := m.(*ast.CommClause); ok && cc.Comm != nil {
+					if as, ok := cc.Comm.(*ast.AssignStmt); ok {
+						for i, l := range as.Lhs {
+							if id, ok := unparen(l).(*ast.Ident); ok && objOf(in, id) == types.Object(rv) && i < len(as.Rhs) {
+								srcs = append(srcs, as.Rhs[i])
+							}
+						}
+					}
+				}
+				return true
+			})
+		}
+		inspectNoLit(f.Body, func(m ast.Node) bool {
+			if rs, ok := m.(*ast.ReturnStmt); ok && len(rs.Results) == 1 {
+				srcs = append(srcs, resolveLocalExpr(in, f, rs.Results[0])...)
+			}
+			return true
+		})
+		var bad []string
+		for _, s := range srcs {
+			cl, ok := unparen(s).(*ast.CallExpr)
+			okSrc := false
+			if ok {
+				// a call of a function VALUE (a registered constructor), not of a declared function or method
+				if callee(in, cl) == nil {
+					if _, isFn := in.TypeOf(cl.Fun).Underlying().(*types.Signature); isFn {
+						okSrc = true
+					}
+				}
+			}
+			if !okSrc {
+				bad = append(bad, exprString(s)+" at "+c.pos(s))
+			}
+		}
+		c.Check(len(bad) == 0 && len(srcs) > 0, f, f.Decl, "engines handed out by "+f.QName(), what, ifElse(len(bad) == 0, "every result is a fresh call of a registered constructor", "not a constructor call: "+strings.Join(bad, "; ")))
+	}
+	if n == 0 {
+		c.Missing("engine source", "no function of pkg/expression that returns IEngine was found")
+	}
+}
+
+func init() {
+	register(&Rule{ID: "R259", Title: "a formal expression is recognised under any prefix: the test that classifies an xsi:type as tFormalExpression looks at the attribute alone — it reads no package-level table (the document, not the library, binds prefixes)", Min: 1, Run: ruleR259})
+}
+
+func ruleR259(c *Ctx) {
+	p := c.P
+	what := "a document may bind the BPMN namespace to any prefix (bpmn2:, semantic:). A reader that accepts only the prefix of the library's own table decodes the conditions of such a document as informal expressions, which count as always true: an exclusive gateway takes its first conditional flow whatever the data says"
+	n := 0
+	for _, f := range p.Funcs {
+		if f.Body == nil || f.Obj == nil || f.Obj.Name() != "UnmarshalXML" || f.Pkg.PkgPath != pathSchema {
+			continue
+		}
+		if r := recvNamed(f.Obj); r == nil || r.Obj().Name() != "AnExpression" {
+			continue
+		}
+		// the classification code: this method and the same-package helpers it reaches that name tFormalExpression
+		for _, cf := range withSamePkgCallees(p, f, 2) {
+			if cf.Body == nil {
+				continue
+			}
+			cin := info(cf)
+			names := false
+			ast.Inspect(cf.Body, func(z ast.Node) bool {
+				if bl, ok := z.(*ast.BasicLit); ok && bl.Kind == token.STRING && strings.Contains(bl.Value, "tFormalExpression") {
+					names = true
+				}
+				return true
+			})
+			if !names {
+				continue
+			}
+			n++
+			var bad []string
+			ast.Inspect(cf.Body, func(z ast.Node) bool {
+				if y, ok := z.(*ast.Ident); ok {
+					if v, ok := cin.Uses[y].(*types.Var); ok && !v.IsField() && v.Pkg() != nil && v.Parent() == v.Pkg().Scope() {
+						bad = append(bad, v.Name()+" at "+c.pos(y))
+					}
+				}
+				return true
+			})
+			c.Check(len(bad) == 0, cf, cf.Decl, "test for a formal expression in "+cf.QName(), what, ifElse(len(bad) == 0, "reads the attribute only", "reads package state: "+strings.Join(bad, "; ")))
+		}
+	}
+	if n == 0 {
+		c.Missing("formal test", "no code reached from AnExpression.UnmarshalXML names tFormalExpression")
+	}
+}
